@@ -212,15 +212,28 @@ def m_next(ctx):
     return option(item)
 
 
-def run_closure_over(ctx, it, f, tag):
+def run_closure_over(ctx, it, f, tag, by_ref=False):
+    """One (arbitrary) item of the iterator handed to the closure, *in a copy of the state*: having an item at all
+    is an assumption (the iterator may be empty), so nothing learnt here may leak into the caller's state.
+    Returns (state copy, item, closure result) or None if the iterator is certainly empty."""
     for h in ctx.I.hooks:
         h("iter_next", interp=ctx.I, ctx=ctx, it=it)
     if mutating_closure(ctx, f):
         ctx.pre("closure passed to an iterator consumer writes to captured state (not modelled)", False)
-    item, _ = iter_item(ctx, it, tag)
-    if item is None:
+    T = ctx.S.copy()
+    c2 = _sub_ctx(ctx, T, tag)
+    item, _ = iter_item(c2, it, tag)
+    if item is None or T.dead:
         return None
-    return call_callable(ctx, f, [item], tag)
+    arg = item
+    if by_ref:
+        cell = ("itref",) + ctx.site + (tag,)
+        T.cells[cell] = item
+        arg = Ref(cell, (), False)
+    r = call_callable(c2, f, [arg], tag)
+    if T.dead:
+        return None
+    return T, item, r
 
 
 @M.reg_re(r"as core::iter::traits::iterator::Iterator>::(all|any)$")
@@ -228,7 +241,7 @@ def run_closure_over(ctx, it, f, tag):
 def m_all(ctx):
     it = ctx.deref(ctx.args[0], "self")
     if isinstance(it, Iter):
-        run_closure_over(ctx, it, ctx.args[1], "all")
+        run_closure_over(ctx, it, ctx.args[1], "all")  # obligations of the closure body; its state is discarded
     return bool_top(ctx)
 
 
@@ -280,13 +293,18 @@ def m_find_map(ctx):
     it = ctx.deref(ctx.args[0], "self")
     if not isinstance(it, Iter):
         return ctx.top_ret()
-    r = run_closure_over(ctx, it, ctx.args[1], "fm")
-    outs = [none()]
-    if isinstance(r, Enum) and "Some" in r.variants:
-        outs.append(Enum(OPT, {"Some": r.variants["Some"]}))
-    elif r is not None and not isinstance(r, Enum):
-        return ctx.top_ret()
-    return ctx.I.join_vals(ctx.S, outs, ctx.site + ("fmj",))
+    got = run_closure_over(ctx, it, ctx.args[1], "fm")
+    cases = [(ctx.S.copy(), none())]
+    if got is not None:
+        T, _, r = got
+        if isinstance(r, Enum) and "Some" in r.variants:
+            d = r.when.get("Some")
+            if d is not None:
+                T.apply_delta(d)
+            cases.append((T, Enum(OPT, {"Some": r.variants["Some"]})))
+        elif r is not None and not isinstance(r, Enum):
+            return ctx.top_ret()
+    return join_cases(ctx, cases, "find_map")
 
 
 # ----------------------------------------------------------------------------- integers
@@ -909,8 +927,7 @@ def iter_item(ctx, it, tag):  # noqa: F811  (extends the item function above wit
         S.add_fact(S.term(lo_.sym).sub(Lin.var(idx)))  # lo <= idx
         S.add_fact(Lin.var(idx).sub(S.term(hi_.sym)).addc(0 if it.n == "inclusive" else 1))  # idx < hi
         if S.dead:
-            S.dead = False  # empty range: no item (the state itself stays reachable)
-            return None, True
+            return None, True  # empty range: no item (callers evaluate items in a copy of their state)
         return Scalar(idx), True
     return _iter_item0(ctx, it, tag)
 
@@ -996,13 +1013,12 @@ def m_iter_find(ctx):
         return ctx.top_ret()
     if mutating_closure(ctx, ctx.args[1]):
         ctx.pre("closure passed to an iterator consumer writes to captured state (not modelled)", False)
-    item, _ = iter_item(ctx, it, "fd")
-    if item is None:
-        return none()
-    cell = ("find",) + ctx.site
-    ctx.S.cells[cell] = item
-    call_callable(ctx, ctx.args[1], [Ref(cell, (), False)], "fdp")
-    return option(item)
+    got = run_closure_over(ctx, it, ctx.args[1], "fd", by_ref=True)
+    cases = [(ctx.S.copy(), none())]
+    if got is not None:
+        T, item, _ = got
+        cases.append((T, some(item)))
+    return join_cases(ctx, cases, "find")
 
 
 # ----------------------------------------------------------------------------- Option<&T> / strings / more slices
